@@ -19,12 +19,34 @@ def cases(tier, rng):
                                        pads=[pad(0, [0], [(0, F(1, 2))])], ui=list(ui))))
             steps.append(frame(raw(pads=[pad(0)], ui=[0, 0])))
         yield (scenario([0, 3], [0], cfg, steps), 'ui-sequences')
+    # UI elements that disappear while hovered / pressed (despawned, or losing the Interaction component), and re-appear
+    held = dict(keys=[0, 1, 102], mbuttons=[0, 1], motion=(F(1), F(-1, 2)), wheel=(F(0), F(1)))
+    for seq in ([[2], [], [], [1], []], [[0, 1], [0], [0], [0, 2], []], [[1, 2, 1], [1], [], [0, 0, 2], [0, 0]], [[2], [2], [], [], [2]]):
+        ids = Ids()
+        cfg = {(0, 0): _c15.one_ctx(ids, inputs), (3, 0): _c15.one_ctx(ids, inputs[:4] + inputs[6:8], a_slot=2)}
+        steps = [sop(spawn(0, [0, 3])), frame(raw(pads=[pad(0)]))]
+        for ui in seq:
+            steps.append(frame(raw(pads=[pad(0, [0], [(0, F(1, 2))])], ui=ui, **held)))
+        yield (scenario([0, 3], [0], cfg, steps), 'ui-disappears')
+    # a context created or rebuilt while the UI is hovered and the mouse is held: the suppression test of its bindings
+    # must not disturb the mask for the bindings evaluated after it
+    for how in ('insert', 'rebuild'):
+        for ui in ([1], [2, 0]):
+            ids = Ids()
+            cfg = {(0, 0): _c15.one_ctx(ids, inputs), (4, 0): _c15.one_ctx(ids, [key(3), mbutton(1), key(2)], a_slot=1), (3, 0): _c15.one_ctx(ids, inputs[:4] + inputs[6:8], a_slot=2)}
+            steps = [sop(spawn(0, [0, 3] if how == 'insert' else [0, 4, 3])), frame(raw(pads=[pad(0)])),
+                     frame(raw(pads=[pad(0)], ui=ui, keys=[0, 1, 102], mbuttons=[0], motion=(F(1), F(-1, 2)), wheel=(F(0), F(1)))),
+                     sop(insert(0, 4) if how == 'insert' else REBUILD)]
+            for _ in range(3):
+                steps.append(frame(raw(pads=[pad(0)], ui=ui, keys=[0, 1, 102], mbuttons=[0], motion=(F(1), F(-1, 2)), wheel=(F(0), F(1)))))
+            steps.append(frame(raw(pads=[pad(0)], ui=[0] * len(ui), keys=[0, 1, 102], mbuttons=[0], motion=(F(1), F(-1, 2)), wheel=(F(0), F(1)))))
+            yield (scenario([0, 3, 4], [0], cfg, steps), 'late-context')
     for _ in range(600 if tier == 'thorough' else 60):
         ids = Ids()
         cfg = {(0, 0): _c15.one_ctx(ids, inputs), (3, 0): _c15.one_ctx(ids, inputs[:4] + inputs[6:8], a_slot=2)}
         steps = [sop(spawn(0, [0, 3])), frame(raw(pads=[pad(0)]))]
-        nui = rng.randint(0, 3)
         for _ in range(12):
+            nui = rng.randint(0, 3)      # elements come and go, also while interacted
             steps.append(frame(raw(keys=[k for k in [0, 1, 102, 104, 100] if rng.random() < .6], mbuttons=[b_ for b_ in [0, 1] if rng.random() < .6],
                                    motion=(rng.choice([F(0), F(1)]), rng.choice([F(0), F(2)])), wheel=(F(0), rng.choice([F(0), F(1)])),
                                    pads=[pad(0, [0] if rng.random() < .5 else [], [(0, rng.choice([F(0), F(1, 2)]))])],
@@ -37,7 +59,7 @@ def nontrivial(case, out):
 STAGES = [dict(name='ui', mode='app', coq='Check.Readc', cases=cases, nontrivial=nontrivial, shard=6,
                exhaustive={'thorough': True, 'quick': True},
                rule='two contexts with mouse, keyboard and gamepad bindings (with and without modifier masks), all inputs held; UI entities carrying bevy_ui Interaction: '
-                    'every sequence of length 2 (quick) / 3 (thorough) of (none, hovered, pressed) for two elements, each followed by an idle frame; random scripts with 0-3 elements; '
+                    'every sequence of length 2 (quick) / 3 (thorough) of (none, hovered, pressed) for two elements, each followed by an idle frame; elements disappearing while hovered or pressed (despawn / component removed) and re-appearing; a context inserted or rebuilt while the UI is hovered and the mouse is held; random scripts with 0-3 elements whose number changes from frame to frame; '
                     'every binding read is compared with the masked specification. non-trivial = some binding reads active; distinct = distinct scenario text')]
 CLAUSES = {1: 'a keyboard read changed with UI interaction (or differs from its specification)', 2: 'a mouse-sourced read is not masked exactly while some UI element is hovered or pressed',
            3: 'a gamepad read changed with UI interaction (or differs from its specification)', 8: 'panic', 9: 'malformed trace', 10: 'panic'}
